@@ -222,7 +222,16 @@ func runJob(job *fwproto.Job) (res fwproto.Result) {
 			}
 			return c.Err != "" || c.Faulty, nil
 		}
-		if f0, _ := failed(first); !f0 {
+		f0, d0 := failed(first)
+		if f1, _ := failed(last); f0 && !f1 && first.Err == "" && last.Err == "" {
+			sig, detail := "warning-hides-error|failed-without-error", "the program is rejected; with a placeholder statement '...' (accepted with a warning) in one block it is accepted"
+			if d0 != nil {
+				sig = fmt.Sprintf("warning-hides-error|%d|%s", d0.Code, d0.Fn)
+				detail = fmt.Sprintf("the program is rejected with (%d) %q @%v; with a placeholder statement '...' (accepted with a warning) in one block no error is delivered and the module is not marked faulty", d0.Code, d0.Msg, d0.Range)
+			}
+			last.Viol = append(last.Viol, fwproto.Viol{Inv: "C07.I2", Sig: sig, Detail: detail})
+		}
+		if !f0 {
 			if f1, d := failed(last); f1 {
 				sig, detail := "warning-fails|failed-without-error", "the program is accepted without errors; with a placeholder statement '...' (accepted with a warning) in one block it is marked faulty without any error"
 				if d != nil {
